@@ -22,9 +22,15 @@ pub struct NestedLoopJoinExecutor {
 impl NestedLoopJoinExecutor {
     #[try_stream(boxed, ok = DataChunk, error = ExecutorError)]
     pub async fn execute(self, left_child: BoxedExecutor, right_child: BoxedExecutor) {
-        if !matches!(self.op, Expr::Inner | Expr::LeftOuter) {
+        if !matches!(
+            self.op,
+            Expr::Inner | Expr::LeftOuter | Expr::RightOuter | Expr::FullOuter
+        ) {
             todo!("unsupported join type: {:?}", self.op);
         }
+        // right rows are kept only when unmatched ones have to be emitted at the end
+        let keep_right = matches!(self.op, Expr::RightOuter | Expr::FullOuter);
+        let mut right_chunks: Vec<DataChunk> = vec![];
         let left_chunks = left_child.try_collect::<Vec<DataChunk>>().await?;
 
         let left_rows = || left_chunks.iter().flat_map(|chunk| chunk.rows());
@@ -54,6 +60,9 @@ impl NestedLoopJoinExecutor {
                 }
             }
             right_row_num += right_chunk.cardinality();
+            if keep_right {
+                right_chunks.push(right_chunk);
+            }
         }
 
         // take rest of data
@@ -68,7 +77,7 @@ impl NestedLoopJoinExecutor {
         let filter = filter_builder.take();
 
         // append rows for left outer join
-        if matches!(self.op, Expr::LeftOuter) {
+        if matches!(self.op, Expr::LeftOuter | Expr::FullOuter) {
             // we need to pick row of left_row which unmatched rows
             let left_row_num = left_rows().count();
             for (mut i, left_row) in left_rows().enumerate() {
@@ -90,6 +99,29 @@ impl NestedLoopJoinExecutor {
                     yield chunk;
                 }
                 tokio::task::consume_budget().await;
+            }
+        }
+
+        // append rows for right outer join: (NULL, right) for every right row without a match
+        if keep_right {
+            let left_row_num = left_rows().count();
+            let mut j = 0;
+            for right_chunk in &right_chunks {
+                for right_row in right_chunk.rows() {
+                    // `filter[i + left_row_num * j]` is the match result of the i-th left row and the j-th right row
+                    let matched = (0..left_row_num)
+                        .any(|i| matches!(filter.get(i + left_row_num * j), Some(true)));
+                    j += 1;
+                    if matched {
+                        continue;
+                    }
+                    let values = (self.left_types.iter().map(|_| DataValue::Null))
+                        .chain(right_row.values());
+                    if let Some(chunk) = builder.push_row(values) {
+                        yield chunk;
+                    }
+                    tokio::task::consume_budget().await;
+                }
             }
         }
 
